@@ -516,6 +516,26 @@ func (g *guardEnv) sliceGuar1(v ssa.Value) predSet {
 		if n, ok := constInt(x.Len); ok && n == 0 {
 			return pAll
 		}
+		// make([]T, len(src)) filled position by position: what holds for every element stored. (That every
+		// position is stored is not looked at: an unfilled position is a zero Route, which no request selects
+		// through a function it does not have.)
+		r := pAll
+		stored := false
+		for _, ref := range referrers(x) {
+			ia, ok := ref.(*ssa.IndexAddr)
+			if !ok || ia.X != ssa.Value(x) {
+				continue
+			}
+			for _, rr := range referrers(ia) {
+				if st, ok := rr.(*ssa.Store); ok && st.Addr == ssa.Value(ia) {
+					stored = true
+					r &= g.elemGuar(st.Val, st.Block())
+				}
+			}
+		}
+		if stored {
+			return r
+		}
 		return 0
 	case *ssa.Phi:
 		r := pAll
